@@ -1,4 +1,11 @@
 mod c04;
+mod c05;
+mod c06;
+mod c11;
+mod c14;
+mod c15;
+mod c16;
+mod c19;
 mod common;
 mod fe;
 mod gen;
@@ -42,6 +49,13 @@ fn dispatch(prop: &str, ctx: &mut Ctx) {
             sweep::worker(ctx)
         }
         "C04" => c04::worker(ctx),
+        "C05" => c05::worker(ctx),
+        "C06" => c06::worker(ctx),
+        "C11" => c11::worker(ctx),
+        "C14" => c14::worker(ctx),
+        "C15" => c15::worker(ctx),
+        "C16" => c16::worker(ctx),
+        "C19" => c19::worker(ctx),
         "C03x" => small::c03x(ctx),
         "C13x" => small::c13x(ctx),
         "C17" => small::c17(ctx),
@@ -132,6 +146,7 @@ fn main() {
                 isolate_cpu_s: arg_val(&args, "--isolate-cpu").and_then(|s| s.parse().ok()).unwrap_or(60.0),
                 wall_s: arg_val(&args, "--wall").and_then(|s| s.parse().ok()).unwrap_or(3000.0),
                 opts: arg_all(&args, "--opt"),
+                assume_hangs: arg_all(&args, "--assume-hang").iter().filter_map(|s| s.split_once('/').map(|(a, b)| (a.to_string(), b.to_string()))).collect(),
             };
             std::process::exit(sup::run(o));
         }
